@@ -75,7 +75,7 @@ theorem block_params_reset :
       (fun r => blockResets.contains r) = true := by decide
 
 /-- the queue of decoded objects is a fresh slice for every block (what a consumer holds is never appended to again) -/
-theorem fresh_queue_per_block : decodeBody.head? = some "dec.q = make([]osm.Object, 0, 8000)" := by decide
+theorem fresh_queue_per_block : decodeBody.contains "dec.q = make([]osm.Object, 0, 8000)" = true := by decide
 
 /-! ## format defaults and delta coding -/
 
